@@ -84,6 +84,17 @@ def normalize(raw):
         others = [x for x in missing if x.rsplit("::", 1)[-1] == last and _module(x) == _module(m)]
         if len(cands) == 1 and len(others) == 1:
             fn_map[cands[0]] = m
+    # the impl block of a function changed its generic parameters (`impl<U> Error<U>` -> `impl Error<Infallible>`):
+    # same path once the `::<..>` segments are erased
+    def _erase(p):
+        return re.sub(r"::<[^<>]*(<[^<>]*>[^<>]*)*>", "", p)
+    for m in missing:
+        if m in fn_map.values():
+            continue
+        cands = [n for n in new if n not in fn_map and _erase(n) == _erase(m)]
+        others = [x for x in missing if _erase(x) == _erase(m)]
+        if len(cands) == 1 and len(others) == 1:
+            fn_map[cands[0]] = m
     if fn_map:
         log["fns"] = dict(fn_map)
         _rename_fns(raw, fn_map)
